@@ -36,6 +36,11 @@ CHECKS["C13"] = dict(
     note="Go channel/select/timer semantics are modelled. Float rounding in nextPeriod is partial (2ns slack). Model of the code after the fix: commit for D3; the pre-fix model and its deadlock witness are kept as a theorem.",
     design="6/C13", technique="Coq proof (closed-set reachability over the finite control skeleton + inductive clocked invariant) + model-derived trace predicate evaluated on virtual-time traces of the real lister")
 
+CHECKS["C04"] = dict(
+    text="Small-step model of server stream x watch session x watcher.run x controller watch case (entries as positions of the server log): the pipeline invariant (applied ++ channel = log up to the last entry taken, session buffer continues it) proved inductive over every action sequence (server changes, deliveries, stream closes, connect errors, non-object frames, reconnects); corollaries: applied is a duplicate-free prefix of the log, a reconnect resumes right after the last entry taken and keeps the output channel, no step discards a received entry, and in every quiescent state the whole log has been applied (no relist needed). Correspondence: the whole controller against a fake API server in synctest virtual time with refresh period 10^6 s, each fault at every position of a base history plus random histories, perturbed schedules; cache at quiescence vs the extracted quiescent outcome (list, then the log in order), subscriber mirror, controller liveness.",
+    note="Model of the code after the fix: commits for D4 and D8. Buffer overflow is outside this model (C10).",
+    design="6/C04", technique="Coq proof (inductive invariant over the watch pipeline LTS, quiescence theorem) + quiescent-outcome correspondence under injected watch faults in virtual time")
+
 PENDING = {}
 
 def main():
